@@ -33,6 +33,10 @@ def materialise(tree, root):
         d = os.path.join(root, *node["path"])
         os.makedirs(d, exist_ok=True)
         for f in node["files"]:
+            if f == "l1.cmake":
+                with open(os.path.join(d, f), "wb") as fh:
+                    fh.write(b"# caf\xe9 in Latin-1\nfunction(f_latin)\nendfunction()\n")
+                continue
             with open(os.path.join(d, f), "w") as fh:
                 # the function name identifies the file (by its relative path) in whatever page it ends up in
                 fh.write(CMAKE_BODY.format(name=f, ident=ident("/".join(node["path"] + [f]))) if f.lower().endswith("cmake") else "text\n")
@@ -96,6 +100,7 @@ def run_case(beh, sandbox, prefix_arg=None, extra_rst=None, capture_effects=True
                         output=OutputSettings(directory=outdir),
                         rst=RSTSettings(module_path_separator=cfg["sep"], prefix=prefix_arg, **(extra_rst or {})))
     listings = {"/".join(l["dir"]): l for l in beh.get("listings", [])}
+    os.makedirs(os.path.join(sandbox, "home", ".config", "cminx"), exist_ok=True)
     before = snapshot(sandbox)
     obs = {"walk_roots": [], "unlisted": [], "docs": [], "scandirs": [], "exc": None}
     real_walk, real_scandir, real_dsf = os.walk, os.scandir, cminx.document_single_file
@@ -137,9 +142,26 @@ def run_case(beh, sandbox, prefix_arg=None, extra_rst=None, capture_effects=True
     logging.disable(logging.CRITICAL)
     os.walk, cminx.document_single_file = walk, dsf
     cminx.os.scandir = scandir
+    via_main = kind == "outside" and prefix_arg is None and not extra_rst and (len(beh["tree"]) + len(pats)) % 3 == 0
+    obs["via_main"] = via_main
     try:
-        with contextlib.redirect_stdout(stdout), contextlib.redirect_stderr(io.StringIO()):
-            cminx.document(inp, settings)
+        if via_main:
+            # the real command line with a RELATIVE output directory, from the case's own working directory
+            import naming
+            import yaml
+            os.makedirs(os.path.join(sandbox, "home", ".config", "cminx"), exist_ok=True)
+            sfile = os.path.join(sandbox, "s.yaml")
+            with open(sfile, "w") as fh:
+                yaml.safe_dump({"input": {"recursive": cfg["recursive"], "auto_exclude_directories_without_cmake": cfg["auto"],
+                                          "exclude_filters": pats}, "rst": {"module_path_separator": cfg["sep"]},
+                                "logging": {"version": 1}}, fh)
+            exc, so = naming.run_main(["-s", sfile, "-o", "out", "in"], sandbox, os.path.join(sandbox, "home"))
+            stdout.write(so)
+            if exc:
+                obs["exc"] = exc
+        else:
+            with contextlib.redirect_stdout(stdout), contextlib.redirect_stderr(io.StringIO()):
+                cminx.document(inp, settings)
     except BaseException as e:
         obs["exc"] = "%s: %s" % (type(e).__name__, str(e)[:120])
     finally:
@@ -226,6 +248,9 @@ def judge(pid, beh, obs):
         if dangling or unlisted:
             return "viol", [], {"dangling_entries": dangling, "pages_not_listed": unlisted}, "toctrees are not closed: an entry without target or a generated page no index lists"
     if not beh["indom"]:
+        return "out", None, None, None
+    if any("l1.cmake" in n["files"] for n in beh["tree"]):
+        # a file that is not UTF-8 is not valid input: the run may fail on it; only closure (above) is demanded
         return "out", None, None, None
     whole_excluded = beh["outcome"] == "excluded" or (not beh["ideal"]["dirs"])
     if obs["exc"] is not None:
@@ -452,6 +477,12 @@ def c18_case(beh, sandbox, n):
             for f in ("keep.txt", "old/keep.rst", "unrelated.rst"):
                 with open(os.path.join(out, f), "w") as fh:
                     fh.write("pre-existing " + f)
+            # stale output of an earlier run, newer than the sources: pages and indexes of this run replace it
+            for f in ("x.rst", "index.rst", "z.rst"):
+                pth = os.path.join(out, f)
+                with open(pth, "w") as fh:
+                    fh.write("stale page from an earlier run\n")
+                os.utime(pth, (4102444800, 4102444800))
         s = {"input": {"recursive": cfg["recursive"], "auto_exclude_directories_without_cmake": cfg["auto"],
                        "exclude_filters": [p.replace("@", inp) for p in cfg["pats"]]},
              "rst": {}, "logging": yaml.safe_load(open(os.path.join(lib.CMINX_SRC, "cminx", "config_default.yaml")))["logging"]}
@@ -484,6 +515,8 @@ def c18_case(beh, sandbox, n):
     deleted = [p for p in before if p not in after]
     bad = [p for p in created + changed if not under(p)] + deleted
     pre_touched = [p for p in changed if os.path.basename(p.rstrip("/")) in ("keep.txt", "keep.rst", "unrelated.rst", "bystander.txt")]
+    # a stale page is only "unrelated" if this run has no page of that name
+    stale_left = [p for p in after if after[p] == b"stale page from an earlier run\n" and os.path.basename(p) in ("x.rst", "z.rst", "index.rst")]
     if bad or pre_touched:
         only_cfg = bool(bad) and not pre_touched and set(bad) <= {"home/.config/", "home/.config/cminx/"}
         return [], {"outside_output_dir_or_deleted": bad, "preexisting_changed": pre_touched, "only_user_config_dir": only_cfg}, \
@@ -494,7 +527,9 @@ def c18_case(beh, sandbox, n):
         for f in fs:
             if f.endswith(".rst") and f != "index.rst" and not f.endswith("keep.rst") and f != "unrelated.rst":
                 rel = os.path.relpath(os.path.join(r, f), out)
-                pages[rel] = open(os.path.join(r, f), encoding="utf-8").read()
+                txt = open(os.path.join(r, f), encoding="utf-8").read()
+                if txt != "stale page from an earlier run\n":
+                    pages[rel] = txt
     want_docs = documented_from_pages(beh["tree"], list(pages.values()))
     if oa["docs"] and sorted(oa["docs"]) != sorted(want_docs):
         return sorted(oa["docs"]), sorted(want_docs), "files documented and pages found under the output directory differ"
@@ -542,7 +577,8 @@ def _chunk18(args):
     for n, beh in chunk:
         sb = tempfile.mkdtemp(prefix="c18_", dir=base)
         try:
-            r = c18_case(beh, sb, n) if beh["indom"] and beh["outcome"] == "ok" else "out"
+            valid = beh["indom"] and beh["outcome"] == "ok" and not any("l1.cmake" in nd["files"] for nd in beh["tree"])
+            r = c18_case(beh, sb, n) if valid else "out"     # (a file that is not UTF-8 is not valid input)
             out.append((n, r))
         finally:
             rmtree(sb)
